@@ -1055,4 +1055,353 @@ theorem orderedToProbs_sum (v : List ℝ) : (orderedToProbs v 1).sum = v.sum := 
 
 end Ordered2
 
+section Codings
+
+/-! ## the three codings together -/
+
+def ValidMethod (m : Nat) : Prop := m = 1 ∨ m = 2 ∨ m = 3
+
+theorem probsOf_one (dim : Nat) (θ : List ℝ) : probsOf 1 dim θ = some (probsGlobal θ 1) := by
+  simp [probsOf]
+theorem paramsOf_one (p : List ℝ) : paramsOf 1 p = paramsGlobal p 1 := by
+  simp [paramsOf]
+
+theorem probsOf_spec (m dim : Nat) (θ : List ℝ) (hm : ValidMethod m) (hd : 0 < dim) (h31 : dim < 2 ^ 31)
+    (hl : θ.length = dim - 1) (h : InOpen θ) :
+    ∃ p, probsOf m dim θ = some p ∧ p.length = dim ∧ p.sum = 1 ∧ AllPos p := by
+  rcases hm with rfl | rfl | rfl
+  · exact ⟨_, probsOf_one dim θ, by rw [probsGlobal_length]; omega, probsGlobal_sum θ 1, probsGlobal_pos θ 1 one_pos h⟩
+  · exact ⟨_, rfl, by rw [probsLocal_length]; omega, probsLocal_sum dim θ h, probsLocal_pos dim θ h⟩
+  · exact ⟨_, rfl, probsBinary_length dim θ, probsBinary_sum dim θ hd h31, probsBinary_pos dim θ hl h h31⟩
+
+theorem paramsOf_length (m : Nat) (p : List ℝ) (hm : ValidMethod m) : (paramsOf m p).length = p.length - 1 := by
+  rcases hm with rfl | rfl | rfl
+  · rw [paramsOf_one]; exact paramsGlobal_length p 1
+  · exact paramsLocal_length p
+  · exact paramsBinary_length p
+
+theorem paramsOf_inOpen (m : Nat) (p : List ℝ) (hm : ValidMethod m) (hp : AllPos p) (hs : p.sum = 1)
+    (h31 : p.length < 2 ^ 31) : InOpen (paramsOf m p) := by
+  rcases hm with rfl | rfl | rfl
+  · rw [paramsOf_one]; exact paramsGlobal_inOpen p 1 hp hs
+  · exact paramsLocal_inOpen p hp
+  · exact paramsBinary_inOpen p hp h31
+
+theorem roundtrip_all (m : Nat) (p : List ℝ) (hm : ValidMethod m) (hp : AllPos p) (hne : p ≠ [])
+    (hs : p.sum = 1) (h31 : p.length < 2 ^ 31) : probsOf m p.length (paramsOf m p) = some p := by
+  rcases hm with rfl | rfl | rfl
+  · simp only [probsOf, paramsOf, ScalarReal.one_eq]; rw [global_roundtrip p 1 hp hne hs]
+  · simp only [probsOf, paramsOf]; rw [local_roundtrip _ p hp hne hs]
+  · simp only [probsOf, paramsOf]; rw [binary_roundtrip_normalises p hp h31, hs]; simp
+
+theorem left_inverse_all (m dim : Nat) (θ p : List ℝ) (hm : ValidMethod m) (h31 : dim < 2 ^ 31)
+    (hl : θ.length = dim - 1) (h : InOpen θ) (e : probsOf m dim θ = some p) : paramsOf m p = θ := by
+  rcases hm with rfl | rfl | rfl
+  · simp only [probsOf_one, Option.some.injEq] at e; subst e
+    rw [paramsOf_one]
+    exact global_left_inverse θ 1 one_ne_zero (fun t mm => ne_of_lt (h t mm).2)
+  · simp only [probsOf, Option.some.injEq] at e; subst e
+    exact local_left_inverse dim θ h
+  · simp only [probsOf, Option.some.injEq] at e; subst e
+    exact binary_left_inverse dim θ hl h h31
+
+
+end Codings
+
+section Object
+
+/-! ## the object: invariant and operations -/
+
+/-- state invariant: parameters in the open cube, probabilities = image of the parameters -/
+structure Inv (s : St ℝ) : Prop where
+  method : ValidMethod s.method
+  dim_pos : 0 < s.dim
+  dim_lt : s.dim < 2 ^ 31
+  len : s.params.length = s.dim - 1
+  inOpen : InOpen s.params
+  probs : probsOf s.method s.dim s.params = some s.probs
+
+theorem Inv.sum_one {s : St ℝ} (h : Inv s) : s.probs.sum = 1 ∧ AllPos s.probs ∧ s.probs.length = s.dim := by
+  obtain ⟨p, e, l, su, po⟩ := probsOf_spec s.method s.dim s.params h.method h.dim_pos h.dim_lt h.len h.inOpen
+  rw [h.probs] at e; cases e; exact ⟨su, po, l⟩
+
+theorem inConstraint_open (v : ℝ) : inConstraint false v = true ↔ 0 < v ∧ v < 1 := by
+  simp [inConstraint]
+theorem inConstraint_closed (v : ℝ) : inConstraint true v = true ↔ 0 ≤ v ∧ v ≤ 1 := by
+  simp [inConstraint]
+theorem inConstraint_of_open (a : Bool) (v : ℝ) (h : 0 < v ∧ v < 1) : inConstraint a v = true := by
+  cases a
+  · exact (inConstraint_open v).mpr h
+  · exact (inConstraint_closed v).mpr ⟨le_of_lt h.1, le_of_lt h.2⟩
+
+theorem mkParam_ok (a : Bool) (v : ℝ) (h : 0 < v ∧ v < 1) : mkParam a v = .ok v := by
+  have : (0:ℝ) < |v - 0| := by simpa using ne_of_gt h.1
+  simp only [mkParam, ScalarReal.zero_eq, ScalarReal.abs_eq, ScalarReal.gtb_iff, this, if_true,
+    inConstraint_of_open a v h]
+
+theorem mapM_mkParam (a : Bool) (l : List ℝ) (h : InOpen l) : l.mapM (mkParam a) = .ok l := by
+  induction l with
+  | nil => rfl
+  | cons v r ih =>
+    rw [List.mapM_cons, mkParam_ok a v (h v (by simp)), ih (fun x m => h x (by simp [m]))]
+    rfl
+
+theorem sumOk_of (p : List ℝ) (hs : p.sum = 1) : sumOk p = true := by
+  have : ¬ ((1000000:ℝ)⁻¹ < 0) := by norm_num
+  simp [sumOk, vsum_eq, hs, SMALL, Scalar.gtb, Scalar.ltb, this]
+
+theorem all_inConstraint (a : Bool) (θ : List ℝ) (h : InOpen θ) : θ.all (inConstraint a) = true := by
+  rw [List.all_eq_true]; intro x hx; exact inConstraint_of_open a x (h x hx)
+
+theorem inOpen_of_all (θ : List ℝ) (h : θ.all (inConstraint false) = true) : InOpen θ := by
+  rw [List.all_eq_true] at h; intro x hx; exact (inConstraint_open x).mp (h x hx)
+
+theorem eq_of_not_changed (c θ : List ℝ) (hl : c.length = θ.length)
+    (h : (List.zip c θ).any (fun (x, v) => !(Scalar.eqb x v)) = false) : c = θ := by
+  induction c generalizing θ with
+  | nil => cases θ with
+    | nil => rfl
+    | cons _ _ => simp at hl
+  | cons a r ih =>
+    cases θ with
+    | nil => simp at hl
+    | cons b t =>
+      simp only [List.zip_cons_cons, List.any_cons, Bool.or_eq_false_iff, Bool.not_eq_false',
+        ScalarReal.eqb_iff] at h
+      rw [h.1, ih t (by simpa using hl) h.2]
+
+/-- `fire` on a state whose parameters are admissible re-establishes the invariant -/
+theorem fire_inv (s : St ℝ) (hm : ValidMethod s.method) (hd : 0 < s.dim) (h31 : s.dim < 2 ^ 31)
+    (hl : s.params.length = s.dim - 1) (ho : InOpen s.params) : Inv (fire s) := by
+  obtain ⟨p, e, _⟩ := probsOf_spec s.method s.dim s.params hm hd h31 hl ho
+  have : fire s = { s with probs := p } := by
+    simp only [fire, Nat.ne_of_gt hd, if_false, e]
+  rw [this]
+  exact ⟨hm, hd, h31, hl, ho, e⟩
+
+theorem fire_eq_of_inv (s : St ℝ) (h : Inv s) : fire s = s := by
+  simp only [fire, Nat.ne_of_gt h.dim_pos, if_false, h.probs]
+
+/-- `matchParametersValues` with parameters in the open cube -/
+theorem matchParams_ok (s : St ℝ) (h : Inv s) (θ : List ℝ) (hl : θ.length = s.dim - 1) (ho : InOpen θ) :
+    ∃ s', matchParams s θ = .ok s' ∧ Inv s' ∧ s'.params = θ ∧ s'.dim = s.dim ∧ s'.method = s.method
+      ∧ s'.allowNull = s.allowNull := by
+  simp only [matchParams, all_inConstraint s.allowNull θ ho, if_true]
+  by_cases hc : (List.zip s.params θ).any (fun (c, v) => !(Scalar.eqb c v)) = true
+  · simp only [hc, if_true]
+    refine ⟨_, rfl, fire_inv _ h.method h.dim_pos h.dim_lt hl ho, ?_⟩
+    simp only [fire, Nat.ne_of_gt h.dim_pos, if_false]
+    split <;> simp
+  · have hc' := eq_false_of_ne_true hc
+    have := eq_of_not_changed s.params θ (by rw [h.len, hl]) hc'
+    simp only [hc', Bool.false_eq_true, if_false]
+    exact ⟨s, rfl, h, this, rfl, rfl, rfl⟩
+
+/-- whatever vector is passed: if `matchParametersValues` returns, under the strict constraint the
+invariant holds again; if it raises the object is unchanged (`Except`) -/
+theorem matchParams_inv (s : St ℝ) (h : Inv s) (ha : s.allowNull = false) (θ : List ℝ)
+    (hl : θ.length = s.dim - 1) (s' : St ℝ) (e : matchParams s θ = .ok s') : Inv s' := by
+  simp only [matchParams, ha] at e
+  by_cases hall : θ.all (inConstraint false) = true
+  · have ho := inOpen_of_all θ hall
+    obtain ⟨s'', e', hi, _⟩ := matchParams_ok s h θ hl ho
+    simp only [matchParams, ha, hall, if_true] at e'
+    simp only [hall, if_true] at e
+    rw [e] at e'; cases e'; exact hi
+  · simp [hall] at e
+
+
+end Object
+
+section Object2
+
+/-- a probability vector in the sense of the property: positive entries, sum one, a dimension
+the `int` shifts of the binary coding are defined for -/
+structure ValidProbs (p : List ℝ) : Prop where
+  pos : AllPos p
+  ne : p ≠ []
+  sum : p.sum = 1
+  len : p.length < 2 ^ 31
+
+theorem construct_ok (p : List ℝ) (m : Nat) (a : Bool) (hm : ValidMethod m) (hp : ValidProbs p) :
+    ∃ s, construct p m a = .ok s ∧ s.probs = p ∧ s.params = paramsOf m p ∧ Inv s ∧ s.allowNull = a := by
+  have hl : p.length ≠ 0 := by have := hp.ne; cases p <;> simp_all
+  have ho := paramsOf_inOpen m p hm hp.pos hp.sum hp.len
+  simp only [construct, hl, if_false, sumOk_of p hp.sum, Bool.not_true, Bool.false_eq_true,
+    mapM_mkParam a _ ho]
+  refine ⟨_, rfl, rfl, rfl, ?_, rfl⟩
+  exact ⟨hm, Nat.pos_of_ne_zero hl, hp.len, by simp [paramsOf_length m p hm], ho,
+    roundtrip_all m p hm hp.pos hp.ne hp.sum hp.len⟩
+
+theorem setFrequencies_ok (s : St ℝ) (h : Inv s) (p : List ℝ) (hp : ValidProbs p) (hl : p.length = s.dim) :
+    ∃ s', setFrequencies s p = .ok s' ∧ s'.probs = p ∧ s'.params = paramsOf s.method p ∧ Inv s' := by
+  have ho := paramsOf_inOpen s.method p h.method hp.pos hp.sum hp.len
+  have hlen : (paramsOf s.method p).length = s.dim - 1 := by rw [paramsOf_length _ _ h.method, hl]
+  have htake : p.take s.dim = p := by rw [← hl]; exact List.take_length
+  obtain ⟨s', e, hi, hpar, hd, hme, _⟩ := matchParams_ok s h (paramsOf s.method p) hlen ho
+  simp only [setFrequencies, Nat.ne_of_gt h.dim_pos, if_false, sumOk_of p hp.sum, Bool.not_true,
+    Bool.false_eq_true, hl, lt_irrefl, htake]
+  refine ⟨s', e, ?_, hpar, hi⟩
+  have e1 := hi.probs
+  rw [hpar, hd, hme, ← hl, roundtrip_all s.method p h.method hp.pos hp.ne hp.sum hp.len] at e1
+  exact (Option.some.inj e1).symm
+
+theorem setFrequencies_inv (s : St ℝ) (h : Inv s) (ha : s.allowNull = false) (p : List ℝ) (s' : St ℝ)
+    (e : setFrequencies s p = .ok s') : Inv s' := by
+  simp only [setFrequencies, Nat.ne_of_gt h.dim_pos, if_false] at e
+  split at e
+  · cases e
+  · split at e
+    · cases e
+    · rename_i hlt
+      refine matchParams_inv s h ha _ ?_ s' e
+      rw [paramsOf_length _ _ h.method, List.length_take]
+      have : s.dim ≤ p.length := by omega
+      simp [this]
+
+theorem setOne_ok (s : St ℝ) (h : Inv s) (i : Nat) (v : ℝ) (hi : 1 ≤ i ∧ i < s.dim) (hv : 0 < v ∧ v < 1) :
+    ∃ s', setOne s i v = .ok s' ∧ Inv s' ∧ s'.params = s.params.set (i - 1) v := by
+  have hnf : ¬ (i = 0 ∨ s.params.length < i) := by rw [h.len]; omega
+  simp only [setOne, hnf, if_false, ScalarReal.zero_eq, ScalarReal.abs_eq, ScalarReal.gtb_iff,
+    inConstraint_of_open s.allowNull v hv, if_true]
+  have hset : InOpen (s.params.set (i - 1) v) := by
+    intro x hx
+    rcases List.mem_or_eq_of_mem_set hx with hx | rfl
+    · exact h.inOpen x hx
+    · exact hv
+  by_cases hc : 0 < |v - s.params.getD (i - 1) default|
+  · simp only [hc, if_true]
+    refine ⟨_, rfl, fire_inv _ h.method h.dim_pos h.dim_lt (by simp [h.len]) hset, ?_⟩
+    simp only [fire, Nat.ne_of_gt h.dim_pos, if_false]
+    split <;> simp
+  · simp only [hc, if_false]
+    refine ⟨_, rfl, by rw [fire_eq_of_inv s h]; exact h, ?_⟩
+    rw [fire_eq_of_inv s h]
+    have hv' : v = s.params.getD (i - 1) default := by
+      have : |v - s.params.getD (i - 1) default| = 0 := le_antisymm (not_lt.mp hc) (abs_nonneg _)
+      linarith [abs_eq_zero.mp this]
+    have hlt : i - 1 < s.params.length := by rw [h.len]; omega
+    rw [List.getD_eq_getElem?_getD, List.getElem?_eq_getElem hlt] at hv'
+    simp only [Option.getD_some] at hv'
+    rw [hv']; exact (List.set_getElem_self hlt).symm
+
+theorem setOne_inv (s : St ℝ) (h : Inv s) (ha : s.allowNull = false) (i : Nat) (v : ℝ) (s' : St ℝ)
+    (e : setOne s i v = .ok s') : Inv s' := by
+  by_cases hnf : (i = 0 ∨ s.params.length < i)
+  · simp [setOne, hnf] at e
+  · by_cases hg : Scalar.gtb (Scalar.abs (v - s.params.getD (i - 1) default)) Scalar.zero = true
+    · by_cases hc : inConstraint s.allowNull v = true
+      · have hv := (inConstraint_open v).mp (ha ▸ hc)
+        have hi : 1 ≤ i ∧ i < s.dim := by rw [h.len] at hnf; have := h.dim_pos; omega
+        obtain ⟨s'', e', hi', _⟩ := setOne_ok s h i v hi hv
+        rw [e] at e'; cases e'; exact hi'
+      · have hc' := eq_false_of_ne_true hc
+        simp only [setOne, hnf, hg, hc', Bool.false_eq_true, if_false, if_true] at e
+        cases e
+    · have hg' := eq_false_of_ne_true hg
+      simp only [setOne, hnf, hg', Bool.false_eq_true, if_false] at e
+      cases e; rw [fire_eq_of_inv s h]; exact h
+
+
+end Object2
+
+section Object3
+
+theorem matchParams_gen (s : St ℝ) (hm : ValidMethod s.method) (hd : 0 < s.dim) (h31 : s.dim < 2 ^ 31)
+    (hls : s.params.length = s.dim - 1) (θ : List ℝ) (hl : θ.length = s.dim - 1) (ho : InOpen θ)
+    (hsame : s.params = θ → probsOf s.method s.dim θ = some s.probs) :
+    ∃ s', matchParams s θ = .ok s' ∧ Inv s' ∧ s'.params = θ ∧ s'.dim = s.dim ∧ s'.method = s.method
+      ∧ s'.allowNull = s.allowNull := by
+  simp only [matchParams, all_inConstraint s.allowNull θ ho, if_true]
+  by_cases hc : (List.zip s.params θ).any (fun (c, v) => !(Scalar.eqb c v)) = true
+  · simp only [hc, if_true]
+    refine ⟨_, rfl, fire_inv _ hm hd h31 hl ho, ?_⟩
+    simp only [fire, Nat.ne_of_gt hd, if_false]
+    split <;> simp
+  · have hc' := eq_false_of_ne_true hc
+    have := eq_of_not_changed s.params θ (by rw [hls, hl]) hc'
+    simp only [hc', Bool.false_eq_true, if_false]
+    exact ⟨s, rfl, ⟨hm, hd, h31, hls, this ▸ ho, by rw [this]; exact hsame this⟩, this, rfl, rfl, rfl⟩
+
+noncomputable def uniform (dim : Nat) : List ℝ := List.replicate dim (1 / (dim : ℝ))
+
+theorem uniform_valid (dim : Nat) (hd : 0 < dim) (h31 : dim < 2 ^ 31) : ValidProbs (uniform dim) := by
+  have hne : (dim : ℝ) ≠ 0 := by positivity
+  refine ⟨?_, ?_, ?_, by simpa [uniform] using h31⟩
+  · intro x hx
+    simp only [uniform, List.mem_replicate] at hx
+    rw [hx.2]; positivity
+  · intro h
+    have : (uniform dim).length = 0 := by rw [h]; rfl
+    simp [uniform] at this; omega
+  · simp [uniform, List.sum_replicate]; field_simp
+
+theorem paramsLocal_replicate (n : Nat) (c : ℝ) (hc : c ≠ 0) :
+    paramsLocal (List.replicate n c) = List.replicate (n - 1) (1 / 2) := by
+  induction n with
+  | zero => simp [paramsLocal]
+  | succ n ih =>
+    cases n with
+    | zero => simp [paramsLocal]
+    | succ k =>
+      simp only [List.replicate_succ, paramsLocal] at ih ⊢
+      rw [ih]
+      simp only [Nat.add_sub_cancel, List.replicate_succ]
+      congr 1
+      field_simp; ring
+
+theorem uniform_eq (dim : Nat) : List.replicate dim (1 / (((dim : Int) : ℝ))) = uniform dim := by
+  simp [uniform]
+
+theorem constructDim_ok (dim m : Nat) (a : Bool) (hm : ValidMethod m) (hd : 0 < dim) (h31 : dim < 2 ^ 31) :
+    ∃ s, constructDim dim m a = .ok s ∧ s.probs = uniform dim ∧ Inv s ∧ s.allowNull = a ∧ s.dim = dim
+      ∧ s.method = m := by
+  have hu := uniform_valid dim hd h31
+  have hlen : (uniform dim).length = dim := by simp [uniform]
+  have hne : (dim : ℝ) ≠ 0 := by positivity
+  rcases hm with rfl | rfl | rfl
+  · have ho := paramsGlobal_inOpen (uniform dim) 1 hu.pos hu.sum
+    simp only [constructDim, Nat.ne_of_gt hd, if_false, ScalarReal.one_eq, ScalarReal.ofInt_eq, uniform_eq, mapM_mkParam a _ ho]
+    refine ⟨_, rfl, rfl, ?_, rfl, rfl, rfl⟩
+    refine ⟨Or.inl rfl, hd, h31, by simp [paramsGlobal_length, hlen], ho, ?_⟩
+    have := roundtrip_all 1 (uniform dim) (Or.inl rfl) hu.pos hu.ne hu.sum hu.len
+    rw [hlen, paramsOf_one] at this
+    exact this
+  · have hp : paramsLocal (uniform dim) = List.replicate (dim - 1) (1 / 2) :=
+      paramsLocal_replicate dim _ (by positivity)
+    have ho : InOpen (List.replicate (dim - 1) (Scalar.ofRat 1 2 : ℝ)) := by
+      intro x hx; simp only [List.mem_replicate] at hx; rw [hx.2]; simp; norm_num
+    simp only [constructDim, Nat.ne_of_gt hd, if_false, ScalarReal.one_eq, ScalarReal.ofInt_eq, uniform_eq, mapM_mkParam a _ ho]
+    refine ⟨_, rfl, rfl, ?_, rfl, rfl, rfl⟩
+    refine ⟨Or.inr (Or.inl rfl), hd, h31, by simp, ho, ?_⟩
+    have := roundtrip_all 2 (uniform dim) (Or.inr (Or.inl rfl)) hu.pos hu.ne hu.sum hu.len
+    rw [hlen] at this
+    simp only [paramsOf] at this
+    rw [hp] at this
+    simpa using this
+  · have ho : InOpen (List.replicate (dim - 1) (Scalar.ofRat 1 2 : ℝ)) := by
+      intro x hx; simp only [List.mem_replicate] at hx; rw [hx.2]; simp; norm_num
+    have ho' := paramsOf_inOpen 3 (uniform dim) (Or.inr (Or.inr rfl)) hu.pos hu.sum hu.len
+    have hrt := roundtrip_all 3 (uniform dim) (Or.inr (Or.inr rfl)) hu.pos hu.ne hu.sum hu.len
+    rw [hlen] at hrt
+    simp only [constructDim, Nat.ne_of_gt hd, if_false, ScalarReal.one_eq, ScalarReal.ofInt_eq, uniform_eq, mapM_mkParam a _ ho]
+    obtain ⟨s', e, hi, hpar, hdim, hme, hal⟩ := matchParams_gen
+      ⟨dim, 3, a, List.replicate (dim - 1) (Scalar.ofRat 1 2 : ℝ), uniform dim⟩ (Or.inr (Or.inr rfl)) hd h31
+      (by simp) (paramsOf 3 (uniform dim)) (by rw [paramsOf_length _ _ (Or.inr (Or.inr rfl)), hlen]) ho'
+      (fun _ => hrt)
+    have htake : (uniform dim).take dim = uniform dim := by exact List.take_of_length_le (by rw [hlen])
+    refine ⟨s', ?_, ?_, hi, hal, hdim, hme⟩
+    · show (do let θ ← pure _; setFrequencies _ _) = _
+      simp only [pure_bind, setFrequencies, Nat.ne_of_gt hd, if_false, sumOk_of _ hu.sum, Bool.not_true,
+        Bool.false_eq_true, hlen, lt_irrefl, htake]
+      exact e
+    · have e1 := hi.probs
+      rw [hpar, hdim, hme] at e1
+      simp only at e1
+      rw [hrt] at e1
+      exact (Option.some.inj e1).symm
+
+
+end Object3
+
 end Bpp.Simplex
